@@ -273,7 +273,9 @@ func (ap *AP) S(size int, slices ...Slice) (newAP AP, ndStart, ndEnd int, err er
 			newStrides[i] = stride
 		}
 
-		if (sl != nil && (!ap.IsVector() && i != outerDim)) || step > 1 {
+		// a lazily transposed pattern does not have the default strides of its shape:
+		// slicing any of its axes leaves gaps
+		if (sl != nil && (!ap.IsVector() && (i != outerDim || ap.o.IsTransposed()))) || step > 1 {
 			order = MakeDataOrder(order, NonContiguous)
 		}
 	}
